@@ -17,7 +17,12 @@ Per message X:
   * `unmarshalX_no_trailing`    where the parser is strict: an accepted message followed by anything is rejected;
                                 where it is not (`finishedMsg`, `serverKeyExchangeMsg`, a `certificateStatusMsg`
                                 of a type other than OCSP) the tolerance is stated as a theorem as well.
-`certificateMsg` additionally: `no_stray_bytes`.  The two hello messages: see the end of the file.
+`certificateMsg` additionally: `no_stray_bytes`.
+The two hello messages (`clientHelloMsg`, `serverHelloMsg`; not canonical: unknown extensions are skipped, known
+ones may repeat, the header is ignored) have `unmarshalX_total_bounds` (`BoundedClientHello` /
+`BoundedServerHello`) and `unmarshalX_marshalX` for every value in `WFClientHello` / `WFServerHello`, through
+all ten / six extensions the code writes; an exact characterisation of the accepted byte strings is not given
+for them.
 -/
 import Gmsm.Model.TLSMessages
 namespace Props.C15Codec
@@ -2259,6 +2264,582 @@ theorem unmarshalServerHello_marshalServerHello (v : ServerHelloMsg) (h : WFServ
     simp_all
 
 
+-- the hello messages: round trip, clientHello --------------------------------------------------------------
+
+theorem chExtLoop_fuel (f1 f2 : Nat) (data : Bytes) (m : ClientHelloMsg) (h1 : data.length < f1) (h2 : data.length < f2) :
+    chExtLoop f1 data m = chExtLoop f2 data m := by
+  induction f1 generalizing f2 data m with
+  | zero => omega
+  | succ f1 ih =>
+    cases f2 with
+    | zero => omega
+    | succ f2 =>
+      unfold chExtLoop
+      by_cases hz : data.length ≠ 0
+      · rw [if_pos hz, if_pos hz]
+        by_cases h4 : data.length < 4
+        · rw [if_pos h4, if_pos h4]
+        · rw [if_neg h4, if_neg h4]
+          dsimp only
+          by_cases hl : (List.drop 4 data).length < get16 (data.getD 2 0) (data.getD 3 0)
+          · rw [if_pos hl, if_pos hl]
+          · rw [if_neg hl, if_neg hl]
+            cases chExtension m (get16 (data.getD 0 0) (data.getD 1 0)) (get16 (data.getD 2 0) (data.getD 3 0)) (List.drop 4 data) with
+            | none => rfl
+            | some m2 =>
+              have := drop_le (List.drop 4 data) (get16 (data.getD 2 0) (data.getD 3 0))
+              have : (List.drop 4 data).length = data.length - 4 := List.length_drop
+              exact ih _ _ _ (by omega) (by omega)
+      · rw [if_neg hz, if_neg hz]
+
+theorem chExtLoop_step (f ext : Nat) (body rest : Bytes) (m : ClientHelloMsg) (he : ext < 65536) (hb : body.length < 65536)
+    (hf : (put16 ext ++ (put16 body.length ++ (body ++ rest))).length < f) :
+    chExtLoop f (put16 ext ++ (put16 body.length ++ (body ++ rest))) m =
+      match chExtension m ext body.length (body ++ rest) with
+      | none => none
+      | some m2 => chExtLoop (rest.length + 1) rest m2 := by
+  cases f with
+  | zero => omega
+  | succ f =>
+    simp only [put16, List.length_append, List.length_cons, List.length_nil] at hf
+    rw [chExtLoop]
+    simp only [put16]
+    bsimp
+    rw [get16_put16 _ he, get16_put16 _ hb, if_pos (by omega), if_neg (by omega),
+      if_neg (by simp only [List.length_append]; omega), List.drop_left]
+    cases chExtension m ext body.length (body ++ rest) with
+    | none => rfl
+    | some m2 => exact chExtLoop_fuel _ _ _ _ (by omega) (by omega)
+
+theorem ch_step_ext (ext : Nat) (body rest : Bytes) (ma mb : ClientHelloMsg) (he : ext < 65536) (hb : body.length < 65536)
+    (hx : chExtension ma ext body.length (body ++ rest) = some mb) :
+    chExtLoop ((put16 ext ++ (put16 body.length ++ (body ++ rest))).length + 1)
+      (put16 ext ++ (put16 body.length ++ (body ++ rest))) ma = chExtLoop (rest.length + 1) rest mb := by
+  rw [chExtLoop_step _ ext body rest ma he hb (by omega), hx]
+
+theorem ch_cond (c : Prop) [Decidable c] (e rest : Bytes) (ma mb : ClientHelloMsg)
+    (ht : c → chExtLoop ((e ++ rest).length + 1) (e ++ rest) ma = chExtLoop (rest.length + 1) rest mb)
+    (hf : ¬c → ma = mb) :
+    chExtLoop (((if c then [e] else []).flatten ++ rest).length + 1) ((if c then [e] else []).flatten ++ rest) ma =
+      chExtLoop (rest.length + 1) rest mb := by
+  by_cases hc : c
+  · simp only [if_pos hc, List.flatten_cons, List.flatten_nil, List.append_nil]
+    exact ht hc
+  · simp only [if_neg hc, List.flatten_nil, List.nil_append]
+    rw [hf hc]
+
+theorem ch_cond_last (c : Prop) [Decidable c] (e : Bytes) (ma mb : ClientHelloMsg)
+    (ht : c → chExtLoop ((e ++ []).length + 1) (e ++ []) ma = some mb)
+    (hf : ¬c → ma = mb) :
+    chExtLoop (((if c then [e] else []).flatten).length + 1) ((if c then [e] else []).flatten) ma = some mb := by
+  by_cases hc : c
+  · simp only [if_pos hc, List.flatten_cons, List.flatten_nil]
+    exact ht hc
+  · simp only [if_neg hc, List.flatten_nil, List.length_nil]
+    rw [hf hc]
+    simp [chExtLoop]
+
+-- the ten extensions as `clientHelloMsg.marshal` writes them, read by `chExtension`
+
+theorem chExt_npn (m : ClientHelloMsg) (rest : Bytes) :
+    chExtension m 13172 0 rest = some { m with nextProtoNeg := true } := by
+  unfold chExtension
+  rw [if_neg (by decide), if_pos rfl, if_neg (by omega)]
+
+theorem sniLoop_host (f : Nat) (name rest : Bytes) (h : name.length < 65536) :
+    sniLoop (f + 1) ([0] ++ (put16 name.length ++ (name ++ rest))) = some (some name) := by
+  rw [sniLoop]
+  simp only [put16]
+  bsimp
+  rw [get16_put16 _ h, if_pos (by omega), if_neg (by omega), if_neg (by simp only [List.length_append]; omega),
+    if_pos trivial, List.take_left]
+
+theorem chExt_sni (m : ClientHelloMsg) (name rest : Bytes) (h : name.length + 5 < 65536) :
+    chExtension m 0 (name.length + 5) (put16 (name.length + 3) ++ ([0] ++ (put16 name.length ++ (name ++ rest)))) =
+      some { m with serverName := name } := by
+  have e : put16 (name.length + 3) ++ ([0] ++ (put16 name.length ++ (name ++ rest))) =
+      (put16 (name.length + 3) ++ ([0] ++ (put16 name.length ++ (name ++ [])))) ++ rest := by
+    simp only [List.append_assoc, List.append_nil]
+  have el : (put16 (name.length + 3) ++ ([0] ++ (put16 name.length ++ (name ++ [])))).length = name.length + 5 := by
+    simp only [put16, List.length_append, List.length_cons, List.length_nil] <;> omega
+  unfold chExtension
+  rw [if_pos rfl]
+  dsimp only
+  rw [e, List.take_left' el]
+  simp only [put16]
+  bsimp
+  rw [get16_put16 _ (by omega), if_neg (by omega), if_neg (by simp only [List.length_append, List.length_nil]; omega)]
+  have := sniLoop_host (name.length + 0 + 1 + 1 + 1) name [] (by omega)
+  simp only [put16, List.cons_append, List.nil_append] at this
+  simp only [List.length_append, List.length_nil, this]
+
+theorem chExt_ocsp (m : ClientHelloMsg) (rest : Bytes) :
+    chExtension m 5 5 ([1, 0, 0, 0, 0] ++ rest) = some { m with ocspStapling := true } := by
+  unfold chExtension
+  rw [if_neg (by decide), if_neg (by decide), if_pos rfl]
+  rfl
+
+theorem chExt_curves (m : ClientHelloMsg) (curves : List Nat) (rest : Bytes) (hx : ∀ x ∈ curves, x < 65536)
+    (hl : 2 + 2 * curves.length < 65536) :
+    chExtension m 10 (2 + 2 * curves.length) (put16 (2 * curves.length) ++ (writeU16s curves ++ rest)) =
+      some { m with supportedCurves := curves } := by
+  unfold chExtension
+  rw [if_neg (by decide), if_neg (by decide), if_neg (by decide), if_pos rfl]
+  simp only [put16]
+  bsimp
+  rw [get16_put16 _ (by omega), if_neg (by omega), if_neg (by omega), show 2 * curves.length / 2 = curves.length by omega,
+    readU16s_writeU16s curves rest hx]
+
+theorem chExt_points (m : ClientHelloMsg) (points rest : Bytes) (hl : points.length < 256) :
+    chExtension m 11 (1 + points.length) (put8 points.length ++ (points ++ rest)) =
+      some { m with supportedPoints := points } := by
+  unfold chExtension
+  rw [if_neg (by decide), if_neg (by decide), if_neg (by decide), if_neg (by decide), if_pos rfl]
+  simp only [put8]
+  bsimp
+  rw [toNat_ofNat8 _ hl, if_neg (by omega), if_neg (by omega), List.take_left]
+
+theorem chExt_ticket (m : ClientHelloMsg) (ticket rest : Bytes) :
+    chExtension m 35 ticket.length (ticket ++ rest) = some { m with ticketSupported := true, sessionTicket := ticket } := by
+  unfold chExtension
+  rw [if_neg (by decide), if_neg (by decide), if_neg (by decide), if_neg (by decide), if_neg (by decide), if_pos rfl,
+    List.take_left]
+
+theorem chExt_sigalgs (m : ClientHelloMsg) (algs : List Nat) (rest : Bytes) (hx : ∀ x ∈ algs, x < 65536)
+    (hl : 2 + 2 * algs.length < 65536) :
+    chExtension m 13 (2 + 2 * algs.length) (put16 (2 * algs.length) ++ (writeU16s algs ++ rest)) =
+      some { m with supportedSignatureAlgorithms := algs } := by
+  unfold chExtension
+  rw [if_neg (by decide), if_neg (by decide), if_neg (by decide), if_neg (by decide), if_neg (by decide),
+    if_neg (by decide), if_pos rfl]
+  simp only [put16]
+  bsimp
+  rw [get16_put16 _ (by omega), if_neg (by omega), if_neg (by omega), show 2 * algs.length / 2 = algs.length by omega,
+    readU16s_writeU16s algs rest hx]
+
+theorem chExt_reneg (m : ClientHelloMsg) (reneg rest : Bytes) (h : reneg.length < 255) :
+    chExtension m 65281 (1 + reneg.length) (put8 reneg.length ++ (reneg ++ rest)) =
+      some { m with secureRenegotiation := reneg, secureRenegotiationSupported := true } := by
+  unfold chExtension
+  rw [if_neg (by decide), if_neg (by decide), if_neg (by decide), if_neg (by decide), if_neg (by decide),
+    if_neg (by decide), if_neg (by decide), if_pos rfl, renegInfo_complete reneg rest h]
+
+theorem chExt_alpn (m : ClientHelloMsg) (protos : List Bytes) (rest : Bytes)
+    (hp : ∀ p ∈ protos, 1 ≤ p.length ∧ p.length < 256) (hl : (protoEntries protos).length + 2 < 65536) :
+    chExtension m 16 ((protoEntries protos).length + 2) (put16 (protoEntries protos).length ++ (protoEntries protos ++ rest)) =
+      some { m with alpnProtocols := m.alpnProtocols ++ protos } := by
+  unfold chExtension
+  rw [if_neg (by decide), if_neg (by decide), if_neg (by decide), if_neg (by decide), if_neg (by decide),
+    if_neg (by decide), if_neg (by decide), if_neg (by decide), if_pos rfl]
+  simp only [put16]
+  bsimp
+  rw [get16_put16 _ (by omega), if_neg (by omega), if_neg (by omega), Nat.add_sub_cancel, List.take_left,
+    protoLoop_complete protos _ hp (by omega)]
+
+theorem chExt_sct (m : ClientHelloMsg) (rest : Bytes) :
+    chExtension m 18 0 rest = some { m with scts := true } := by
+  unfold chExtension
+  rw [if_neg (by decide), if_neg (by decide), if_neg (by decide), if_neg (by decide), if_neg (by decide),
+    if_neg (by decide), if_neg (by decide), if_neg (by decide), if_neg (by decide), if_pos rfl, if_neg (by omega)]
+
+
+/-- `clientHelloMsg.unmarshal` from `if len(data) < 2` (before the cipher suites) on, with what it has read before -/
+def chTail (vers : Nat) (random sessionId data : Bytes) : Option ClientHelloMsg :=
+  if data.length < 2 then none else
+  let cipherSuiteLen := get16 (data.getD 0 0) (data.getD 1 0)
+  if cipherSuiteLen % 2 = 1 ∨ data.length < 2 + cipherSuiteLen then none else
+  let cipherSuites := readU16s (cipherSuiteLen / 2) (data.drop 2)
+  let scsv := cipherSuites.any (· = 255)
+  let data := data.drop (2 + cipherSuiteLen)
+  if data.length < 1 then none else
+  let compressionMethodsLen := (data.getD 0 0).toNat
+  if data.length < 1 + compressionMethodsLen then none else
+  let compressionMethods := (data.drop 1).take compressionMethodsLen
+  let data := data.drop (1 + compressionMethodsLen)
+  let m : ClientHelloMsg := {
+    vers := vers, random := random, sessionId := sessionId, cipherSuites := cipherSuites,
+    compressionMethods := compressionMethods, nextProtoNeg := false, serverName := [], ocspStapling := false,
+    scts := false, supportedCurves := [], supportedPoints := [], ticketSupported := false, sessionTicket := [],
+    supportedSignatureAlgorithms := [], secureRenegotiation := [], secureRenegotiationSupported := scsv,
+    alpnProtocols := [] }
+  if data.length = 0 then some m else
+  if data.length < 2 then none else
+  let extensionsLength := get16 (data.getD 0 0) (data.getD 1 0)
+  let data := data.drop 2
+  if extensionsLength ≠ data.length then none else
+  chExtLoop (data.length + 1) data m
+
+theorem unmarshalClientHello_split (hd random sid rest : Bytes) (vers : Nat) (h4 : hd.length = 4)
+    (hr : random.length = 32) (hs : sid.length ≤ 32) (hv : vers < 65536) (h3 : 3 ≤ rest.length) :
+    unmarshalClientHello (hd ++ (put16 vers ++ (random ++ (put8 sid.length ++ (sid ++ rest))))) =
+      chTail vers random sid rest := by
+  obtain ⟨a, b, c, d, rfl⟩ := len4 hd h4
+  have e38 : (a :: b :: c :: d :: BitVec.ofNat 8 (vers / 256) :: BitVec.ofNat 8 vers :: random).length = 38 := by
+    simp only [List.length_cons, hr]
+  have hdata : [a, b, c, d] ++ (put16 vers ++ (random ++ (put8 sid.length ++ (sid ++ rest)))) =
+      (a :: b :: c :: d :: BitVec.ofNat 8 (vers / 256) :: BitVec.ofNat 8 vers :: random) ++
+        (BitVec.ofNat 8 sid.length :: (sid ++ rest)) := by
+    simp only [put16, put8, List.cons_append, List.nil_append]
+  have hlen : ([a, b, c, d] ++ (put16 vers ++ (random ++ (put8 sid.length ++ (sid ++ rest))))).length =
+      39 + sid.length + rest.length := by
+    simp only [put16, put8, List.length_append, List.length_cons, List.length_nil, hr]; omega
+  unfold unmarshalClientHello chTail
+  rw [hlen, if_neg (by omega)]
+  dsimp only
+  have g38 : ([a, b, c, d] ++ (put16 vers ++ (random ++ (put8 sid.length ++ (sid ++ rest))))).getD 38 0 =
+      BitVec.ofNat 8 sid.length := by
+    rw [hdata, getD_at _ _ 38 e38]; rfl
+  have g4 : ([a, b, c, d] ++ (put16 vers ++ (random ++ (put8 sid.length ++ (sid ++ rest))))).getD 4 0 =
+      BitVec.ofNat 8 (vers / 256) := rfl
+  have g5 : ([a, b, c, d] ++ (put16 vers ++ (random ++ (put8 sid.length ++ (sid ++ rest))))).getD 5 0 =
+      BitVec.ofNat 8 vers := rfl
+  have d6 : ([a, b, c, d] ++ (put16 vers ++ (random ++ (put8 sid.length ++ (sid ++ rest))))).drop 6 =
+      random ++ (put8 sid.length ++ (sid ++ rest)) := rfl
+  have d39 : ([a, b, c, d] ++ (put16 vers ++ (random ++ (put8 sid.length ++ (sid ++ rest))))).drop 39 =
+      sid ++ rest := by
+    rw [hdata, drop_at _ _ 38 1 e38]; rfl
+  have d39n : ([a, b, c, d] ++ (put16 vers ++ (random ++ (put8 sid.length ++ (sid ++ rest))))).drop (39 + sid.length) =
+      rest := by
+    rw [hdata, show 39 + sid.length = 38 + (1 + sid.length) by omega, drop_at _ _ 38 _ e38, Nat.add_comm 1,
+      List.drop_succ_cons, List.drop_left]
+  rw [g38, g4, g5, d6, d39, toNat_ofNat8 _ (by omega), d39n, get16_put16 _ hv, if_neg (by omega),
+    List.take_left' hr, List.take_left]
+
+/-- the values `clientHelloMsg.marshal` writes without truncating a field and `unmarshal` reads back as they
+    are: every length inside its field, optional data unset when its flag is unset, and the renegotiation flag
+    set when the cipher suites contain the signalling value 0x00ff (the parser sets it then) -/
+def WFClientHello (v : ClientHelloMsg) : Prop :=
+  v.vers < 65536 ∧ v.random.length = 32 ∧ v.sessionId.length ≤ 32 ∧
+  (∀ x ∈ v.cipherSuites, x < 65536) ∧ 2 * v.cipherSuites.length < 65536 ∧ v.compressionMethods.length < 256 ∧
+  (∀ x ∈ v.supportedCurves, x < 65536) ∧ v.supportedPoints.length < 256 ∧
+  (v.ticketSupported = false → v.sessionTicket = []) ∧
+  (∀ x ∈ v.supportedSignatureAlgorithms, x < 65536) ∧
+  (v.secureRenegotiationSupported = false → v.secureRenegotiation = []) ∧ v.secureRenegotiation.length < 255 ∧
+  (v.cipherSuites.any (· = 255) = true → v.secureRenegotiationSupported = true) ∧
+  (∀ p ∈ v.alpnProtocols, 1 ≤ p.length ∧ p.length < 256) ∧
+  (chExtensions v).flatten.length < 65536
+
+
+/-- the message as `clientHelloMsg.unmarshal` holds it before the first extension -/
+def chBase (v : ClientHelloMsg) : ClientHelloMsg :=
+  { v with nextProtoNeg := false, serverName := [], ocspStapling := false, scts := false, supportedCurves := [],
+           supportedPoints := [], ticketSupported := false, sessionTicket := [], supportedSignatureAlgorithms := [],
+           secureRenegotiation := [], secureRenegotiationSupported := v.cipherSuites.any (· = 255), alpnProtocols := [] }
+def chM1 (v : ClientHelloMsg) : ClientHelloMsg := { chBase v with nextProtoNeg := v.nextProtoNeg }
+def chM2 (v : ClientHelloMsg) : ClientHelloMsg := { chM1 v with serverName := v.serverName }
+def chM3 (v : ClientHelloMsg) : ClientHelloMsg := { chM2 v with ocspStapling := v.ocspStapling }
+def chM4 (v : ClientHelloMsg) : ClientHelloMsg := { chM3 v with supportedCurves := v.supportedCurves }
+def chM5 (v : ClientHelloMsg) : ClientHelloMsg := { chM4 v with supportedPoints := v.supportedPoints }
+def chM6 (v : ClientHelloMsg) : ClientHelloMsg :=
+  { chM5 v with ticketSupported := v.ticketSupported, sessionTicket := v.sessionTicket }
+def chM7 (v : ClientHelloMsg) : ClientHelloMsg :=
+  { chM6 v with supportedSignatureAlgorithms := v.supportedSignatureAlgorithms }
+def chM8 (v : ClientHelloMsg) : ClientHelloMsg :=
+  { chM7 v with secureRenegotiation := v.secureRenegotiation, secureRenegotiationSupported := v.secureRenegotiationSupported }
+def chM9 (v : ClientHelloMsg) : ClientHelloMsg := { chM8 v with alpnProtocols := v.alpnProtocols }
+
+theorem cond_flat_len (c : Prop) [Decidable c] (e : Bytes) :
+    ((if c then [e] else []).flatten).length = if c then e.length else 0 := by
+  by_cases hc : c
+  · simp only [if_pos hc, List.flatten_cons, List.flatten_nil, List.append_nil]
+  · simp only [if_neg hc, List.flatten_nil, List.length_nil]
+
+set_option linter.unusedSimpArgs false in
+theorem chExtLoop_chExtensions (v : ClientHelloMsg) (h : WFClientHello v) :
+    chExtLoop ((chExtensions v).flatten.length + 1) (chExtensions v).flatten (chBase v) = some v := by
+  obtain ⟨hv, hr, hsid, hcs, hcsl, hcm, hcu, hpt, htk, hsa, hrn0, hrn, hscsv, halpn, hext⟩ := h
+  simp only [chExtensions, List.flatten_append, List.length_append, cond_flat_len] at hext
+  simp only [chExtensions, List.flatten_append, List.append_assoc]
+  -- next_protocol_negotiation
+  refine Eq.trans (ch_cond _ _ _ _ (chM1 v) ?_ ?_) ?_
+  · intro c
+    refine ch_step_ext 13172 [] _ _ _ (by decide) (by decide) ?_
+    rw [List.nil_append]
+    show chExtension (chBase v) 13172 0 _ = _
+    rw [chExt_npn]
+    obtain ⟨⟩ := v
+    simp_all [chBase, chM1, chM2, chM3, chM4, chM5, chM6, chM7, chM8, chM9]
+  · intro c
+    have c2 : v.nextProtoNeg = false := by simpa using c
+    obtain ⟨⟩ := v
+    simp_all [chBase, chM1, chM2, chM3, chM4, chM5, chM6, chM7, chM8, chM9]
+  -- server_name
+  refine Eq.trans (ch_cond _ _ _ _ (chM2 v) ?_ ?_) ?_
+  · intro c
+    have e2 : (put16 (v.serverName.length + 3) ++ ([0] ++ (put16 v.serverName.length ++ v.serverName))).length =
+        v.serverName.length + 5 := by
+      simp only [put16, List.length_append, List.length_cons, List.length_nil] <;> omega
+    have hb : v.serverName.length + 5 < 65536 := by
+      simp only [c, if_true, put16, List.length_append, List.length_cons, List.length_nil] at hext
+      omega
+    rw [← e2, List.append_assoc, List.append_assoc]
+    refine ch_step_ext 0 _ _ _ _ (by decide) (by rw [e2]; omega) ?_
+    rw [List.append_assoc, List.append_assoc, List.append_assoc, e2, chExt_sni _ _ _ hb]
+    obtain ⟨⟩ := v
+    simp_all [chBase, chM1, chM2, chM3, chM4, chM5, chM6, chM7, chM8, chM9]
+  · intro c
+    have c2 : v.serverName = [] := List.eq_nil_of_length_eq_zero (by omega)
+    obtain ⟨⟩ := v
+    simp_all [chBase, chM1, chM2, chM3, chM4, chM5, chM6, chM7, chM8, chM9]
+  -- status_request
+  refine Eq.trans (ch_cond _ _ _ _ (chM3 v) ?_ ?_) ?_
+  · intro c
+    have e : put16 5 ++ [0, 5, 1, 0, 0, 0, 0] = put16 5 ++ (put16 ([1, 0, 0, 0, 0] : Bytes).length ++ [1, 0, 0, 0, 0]) := by
+      decide
+    rw [e, List.append_assoc, List.append_assoc]
+    refine ch_step_ext 5 _ _ _ _ (by decide) (by decide) ?_
+    show chExtension (chM2 v) 5 5 _ = _
+    rw [chExt_ocsp]
+    obtain ⟨⟩ := v
+    simp_all [chBase, chM1, chM2, chM3, chM4, chM5, chM6, chM7, chM8, chM9]
+  · intro c
+    have c2 : v.ocspStapling = false := by simpa using c
+    obtain ⟨⟩ := v
+    simp_all [chBase, chM1, chM2, chM3, chM4, chM5, chM6, chM7, chM8, chM9]
+  -- supported_curves
+  refine Eq.trans (ch_cond _ _ _ _ (chM4 v) ?_ ?_) ?_
+  · intro c
+    have e2 : (put16 (2 * v.supportedCurves.length) ++ writeU16s v.supportedCurves).length =
+        2 + 2 * v.supportedCurves.length := by
+      simp only [put16, List.length_append, List.length_cons, List.length_nil, writeU16s_length] <;> omega
+    have hb : 2 + 2 * v.supportedCurves.length < 65536 := by
+      simp only [c, if_true, put16, List.length_append, List.length_cons, List.length_nil, writeU16s_length] at hext
+      omega
+    rw [← e2, List.append_assoc, List.append_assoc]
+    refine ch_step_ext 10 _ _ _ _ (by decide) (by rw [e2]; omega) ?_
+    rw [List.append_assoc, e2, chExt_curves _ _ _ hcu hb]
+    obtain ⟨⟩ := v
+    simp_all [chBase, chM1, chM2, chM3, chM4, chM5, chM6, chM7, chM8, chM9]
+  · intro c
+    have c2 : v.supportedCurves = [] := List.eq_nil_of_length_eq_zero (by omega)
+    obtain ⟨⟩ := v
+    simp_all [chBase, chM1, chM2, chM3, chM4, chM5, chM6, chM7, chM8, chM9]
+  -- ec_point_formats
+  refine Eq.trans (ch_cond _ _ _ _ (chM5 v) ?_ ?_) ?_
+  · intro c
+    have e2 : (put8 v.supportedPoints.length ++ v.supportedPoints).length = 1 + v.supportedPoints.length := by
+      simp only [put8, List.length_append, List.length_cons, List.length_nil] <;> omega
+    rw [← e2, List.append_assoc, List.append_assoc]
+    refine ch_step_ext 11 _ _ _ _ (by decide) (by rw [e2]; omega) ?_
+    rw [List.append_assoc, e2, chExt_points _ _ _ hpt]
+    obtain ⟨⟩ := v
+    simp_all [chBase, chM1, chM2, chM3, chM4, chM5, chM6, chM7, chM8, chM9]
+  · intro c
+    have c2 : v.supportedPoints = [] := List.eq_nil_of_length_eq_zero (by omega)
+    obtain ⟨⟩ := v
+    simp_all [chBase, chM1, chM2, chM3, chM4, chM5, chM6, chM7, chM8, chM9]
+  -- session_ticket
+  refine Eq.trans (ch_cond _ _ _ _ (chM6 v) ?_ ?_) ?_
+  · intro c
+    have hb : v.sessionTicket.length < 65536 := by
+      simp only [c, if_true, put16, List.length_append, List.length_cons, List.length_nil] at hext
+      omega
+    rw [List.append_assoc, List.append_assoc]
+    refine ch_step_ext 35 _ _ _ _ (by decide) hb ?_
+    rw [chExt_ticket]
+    obtain ⟨⟩ := v
+    simp_all [chBase, chM1, chM2, chM3, chM4, chM5, chM6, chM7, chM8, chM9]
+  · intro c
+    have c2 : v.ticketSupported = false := by simpa using c
+    have := htk c2
+    obtain ⟨⟩ := v
+    simp_all [chBase, chM1, chM2, chM3, chM4, chM5, chM6, chM7, chM8, chM9]
+  -- signature_algorithms
+  refine Eq.trans (ch_cond _ _ _ _ (chM7 v) ?_ ?_) ?_
+  · intro c
+    have e2 : (put16 (2 * v.supportedSignatureAlgorithms.length) ++ writeU16s v.supportedSignatureAlgorithms).length =
+        2 + 2 * v.supportedSignatureAlgorithms.length := by
+      simp only [put16, List.length_append, List.length_cons, List.length_nil, writeU16s_length] <;> omega
+    have hb : 2 + 2 * v.supportedSignatureAlgorithms.length < 65536 := by
+      simp only [c, if_true, put16, List.length_append, List.length_cons, List.length_nil, writeU16s_length] at hext
+      omega
+    rw [← e2, List.append_assoc, List.append_assoc]
+    refine ch_step_ext 13 _ _ _ _ (by decide) (by rw [e2]; omega) ?_
+    rw [List.append_assoc, e2, chExt_sigalgs _ _ _ hsa hb]
+    obtain ⟨⟩ := v
+    simp_all [chBase, chM1, chM2, chM3, chM4, chM5, chM6, chM7, chM8, chM9]
+  · intro c
+    have c2 : v.supportedSignatureAlgorithms = [] := List.eq_nil_of_length_eq_zero (by omega)
+    obtain ⟨⟩ := v
+    simp_all [chBase, chM1, chM2, chM3, chM4, chM5, chM6, chM7, chM8, chM9]
+  -- renegotiation_info
+  refine Eq.trans (ch_cond _ _ _ _ (chM8 v) ?_ ?_) ?_
+  · intro c
+    have e : put16 65281 ++ ([0] ++ (put8 (v.secureRenegotiation.length + 1) ++ (put8 v.secureRenegotiation.length ++
+        v.secureRenegotiation))) = put16 65281 ++ (put16 (put8 v.secureRenegotiation.length ++ v.secureRenegotiation).length ++
+        (put8 v.secureRenegotiation.length ++ v.secureRenegotiation)) := by
+      simp only [put16, put8, List.length_append, List.length_cons, List.length_nil, List.cons_append, List.nil_append]
+      rw [show (v.secureRenegotiation.length + 1) / 256 = 0 by omega]
+      rw [show v.secureRenegotiation.length + 0 + 1 = v.secureRenegotiation.length + 1 by omega]
+      rfl
+    have e2 : (put8 v.secureRenegotiation.length ++ v.secureRenegotiation).length = 1 + v.secureRenegotiation.length := by
+      simp only [put8, List.length_append, List.length_cons, List.length_nil] <;> omega
+    rw [e, List.append_assoc, List.append_assoc]
+    refine ch_step_ext 65281 _ _ _ _ (by decide) (by rw [e2]; omega) ?_
+    rw [List.append_assoc, e2, chExt_reneg _ _ _ hrn]
+    obtain ⟨⟩ := v
+    simp_all [chBase, chM1, chM2, chM3, chM4, chM5, chM6, chM7, chM8, chM9]
+  · intro c
+    have c2 : v.secureRenegotiationSupported = false := by simpa using c
+    have a1 := hrn0 c2
+    have a2 : v.cipherSuites.any (· = 255) = false := by
+      cases hs : v.cipherSuites.any (· = 255) with
+      | false => rfl
+      | true => rw [hscsv hs] at c2; cases c2
+    obtain ⟨⟩ := v
+    simp_all [chBase, chM1, chM2, chM3, chM4, chM5, chM6, chM7, chM8, chM9]
+  -- application_layer_protocol_negotiation
+  refine Eq.trans (ch_cond _ _ _ _ (chM9 v) ?_ ?_) ?_
+  · intro c
+    have e2 : (put16 (protoEntries v.alpnProtocols).length ++ protoEntries v.alpnProtocols).length =
+        (protoEntries v.alpnProtocols).length + 2 := by
+      simp only [put16, List.length_append, List.length_cons, List.length_nil] <;> omega
+    have hb : (protoEntries v.alpnProtocols).length + 2 < 65536 := by
+      simp only [c, if_true, put16, List.length_append, List.length_cons, List.length_nil] at hext
+      omega
+    rw [← e2, List.append_assoc, List.append_assoc]
+    refine ch_step_ext 16 _ _ _ _ (by decide) (by rw [e2]; omega) ?_
+    rw [List.append_assoc, e2, chExt_alpn _ _ _ halpn hb]
+    obtain ⟨⟩ := v
+    simp_all [chBase, chM1, chM2, chM3, chM4, chM5, chM6, chM7, chM8, chM9]
+  · intro c
+    have c2 : v.alpnProtocols = [] := List.eq_nil_of_length_eq_zero (by omega)
+    obtain ⟨⟩ := v
+    simp_all [chBase, chM1, chM2, chM3, chM4, chM5, chM6, chM7, chM8, chM9]
+  -- signed_certificate_timestamp
+  refine ch_cond_last _ _ _ _ ?_ ?_
+  · intro c
+    have e : put16 18 ++ [0, 0] ++ [] = put16 18 ++ (put16 ([] : Bytes).length ++ (([] : Bytes) ++ [])) := by decide
+    rw [e]
+    rw [ch_step_ext 18 [] [] _ v (by decide) (by decide) ?_]
+    · simp [chExtLoop]
+    · show chExtension (chM9 v) 18 0 _ = _
+      rw [chExt_sct]
+      obtain ⟨⟩ := v
+      simp_all [chBase, chM1, chM2, chM3, chM4, chM5, chM6, chM7, chM8, chM9]
+  · intro c
+    have c2 : v.scts = false := by simpa using c
+    obtain ⟨⟩ := v
+    simp_all [chBase, chM1, chM2, chM3, chM4, chM5, chM6, chM7, chM8, chM9]
+
+
+theorem cond_len1 (c : Prop) [Decidable c] (e : Bytes) :
+    ((if c then [e] else []) : List Bytes).length = if c then 1 else 0 := by
+  by_cases hc : c
+  · simp only [if_pos hc, List.length_cons, List.length_nil]
+  · simp only [if_neg hc, List.length_nil]
+
+theorem chNum_zero (v : ClientHelloMsg) (h : (chExtensions v).length = 0) :
+    v.nextProtoNeg = false ∧ v.serverName.length = 0 ∧ v.ocspStapling = false ∧ v.supportedCurves.length = 0 ∧
+    v.supportedPoints.length = 0 ∧ v.ticketSupported = false ∧ v.supportedSignatureAlgorithms.length = 0 ∧
+    v.secureRenegotiationSupported = false ∧ v.alpnProtocols.length = 0 ∧ v.scts = false := by
+  simp only [chExtensions, List.length_append, cond_len1] at h
+  refine ⟨?_, ?_, ?_, ?_, ?_, ?_, ?_, ?_, ?_, ?_⟩
+  · cases hc : v.nextProtoNeg with
+    | false => rfl
+    | true => rw [hc] at h; simp only [if_true] at h; omega
+  · by_cases hc : v.serverName.length > 0
+    · rw [if_pos hc] at h; omega
+    · omega
+  · cases hc : v.ocspStapling with
+    | false => rfl
+    | true => rw [hc] at h; simp only [if_true] at h; omega
+  · by_cases hc : v.supportedCurves.length > 0
+    · rw [if_pos hc] at h; omega
+    · omega
+  · by_cases hc : v.supportedPoints.length > 0
+    · rw [if_pos hc] at h; omega
+    · omega
+  · cases hc : v.ticketSupported with
+    | false => rfl
+    | true => rw [hc] at h; simp only [if_true] at h; omega
+  · by_cases hc : v.supportedSignatureAlgorithms.length > 0
+    · rw [if_pos hc] at h; omega
+    · omega
+  · cases hc : v.secureRenegotiationSupported with
+    | false => rfl
+    | true => rw [hc] at h; simp only [if_true] at h; omega
+  · by_cases hc : v.alpnProtocols.length > 0
+    · rw [if_pos hc] at h; omega
+    · omega
+  · cases hc : v.scts with
+    | false => rfl
+    | true => rw [hc] at h; simp only [if_true] at h; omega
+
+theorem get16_suites (n : Nat) (h : 2 * n < 65536) :
+    get16 (BitVec.ofNat 8 (n / 128)) (BitVec.ofNat 8 (n * 2)) = 2 * n := by
+  unfold get16; simp only [BitVec.toNat_ofNat]; omega
+
+theorem drop2 (a b : Byte) (r : Bytes) (n : Nat) : List.drop (2 + n) (a :: b :: r) = List.drop n r := by
+  rw [Nat.add_comm]; simp only [List.drop_succ_cons]
+
+theorem drop1 (a : Byte) (r : Bytes) (n : Nat) : List.drop (1 + n) (a :: r) = List.drop n r := by
+  rw [Nat.add_comm]; simp only [List.drop_succ_cons]
+
+/-- `unmarshalClientHello_marshalClientHello`: `clientHelloMsg.unmarshal` reads back every field of what
+    `marshal` wrote — version, random, session id, cipher suites, compression methods and all ten extensions
+    (NPN, server name, status request, curves, point formats, session ticket, signature algorithms,
+    renegotiation data, ALPN names, SCT) — for every value inside the ranges of the length fields
+    (`WFClientHello`) -/
+theorem unmarshalClientHello_marshalClientHello (v : ClientHelloMsg) (h : WFClientHello v) :
+    unmarshalClientHello (marshalClientHello v) = some v := by
+  have hloop := chExtLoop_chExtensions v h
+  obtain ⟨hv, hr, hsid, hcs, hcsl, hcm, hcu, hpt, htk, hsa, hrn0, hrn, hscsv, halpn, hext⟩ := h
+  have hbase : chBase v = {
+      vers := v.vers, random := v.random, sessionId := v.sessionId, cipherSuites := v.cipherSuites,
+      compressionMethods := v.compressionMethods, nextProtoNeg := false, serverName := [], ocspStapling := false,
+      scts := false, supportedCurves := [], supportedPoints := [], ticketSupported := false, sessionTicket := [],
+      supportedSignatureAlgorithms := [], secureRenegotiation := [],
+      secureRenegotiationSupported := v.cipherSuites.any (· = 255), alpnProtocols := [] } := rfl
+  have hwl := writeU16s_length v.cipherSuites
+  unfold marshalClientHello
+  simp only [random32_eq _ hr]
+  by_cases hn : (chExtensions v).length > 0
+  · simp only [if_pos hn]
+    generalize hEdef : (chExtensions v).flatten = E at hloop hext ⊢
+    rw [← List.append_assoc [1]]
+    rw [unmarshalClientHello_split _ _ _ _ _ rfl hr hsid hv
+      (by simp only [put8, List.length_append, List.length_cons, List.length_nil]; omega)]
+    unfold chTail
+    simp only [put16, put8]
+    bsimp
+    rw [get16_suites _ hcsl, if_neg (by omega), if_neg (by simp only [List.length_append, List.length_cons]; omega),
+      show 2 * v.cipherSuites.length / 2 = v.cipherSuites.length by omega, readU16s_writeU16s _ _ hcs,
+      drop2, ← hwl, List.drop_left]
+    bsimp
+    rw [toNat_ofNat8 _ hcm, if_neg (by omega), if_neg (by simp only [List.length_append, List.length_cons]; omega),
+      List.take_left, drop1, List.drop_left]
+    bsimp
+    rw [get16_put16 _ hext, if_neg (by omega), if_neg (by omega), if_neg (by omega), ← hbase, hloop]
+  · simp only [if_neg hn]
+    obtain ⟨c1, c2, c3, c4, c5, c6, c7, c8, c9, c10⟩ := chNum_zero v (by omega)
+    rw [← List.append_assoc [1]]
+    rw [unmarshalClientHello_split _ _ _ _ _ rfl hr hsid hv
+      (by simp only [put8, List.length_append, List.length_cons, List.length_nil]; omega)]
+    unfold chTail
+    simp only [put8]
+    bsimp
+    rw [get16_suites _ hcsl, if_neg (by omega), if_neg (by simp only [List.length_append, List.length_cons]; omega),
+      show 2 * v.cipherSuites.length / 2 = v.cipherSuites.length by omega, readU16s_writeU16s _ _ hcs,
+      drop2, ← hwl, List.drop_left]
+    bsimp
+    rw [toNat_ofNat8 _ hcm, if_neg (by omega), if_neg (by simp only [List.length_append]; omega),
+      List.take_left, drop1, List.drop_left]
+    rw [if_pos List.length_nil, ← hbase]
+    have a1 : v.serverName = [] := List.eq_nil_of_length_eq_zero c2
+    have a2 : v.supportedCurves = [] := List.eq_nil_of_length_eq_zero c4
+    have a3 : v.supportedPoints = [] := List.eq_nil_of_length_eq_zero c5
+    have a4 := htk c6
+    have a5 : v.supportedSignatureAlgorithms = [] := List.eq_nil_of_length_eq_zero c7
+    have a6 := hrn0 c8
+    have a7 : v.alpnProtocols = [] := List.eq_nil_of_length_eq_zero c9
+    have a8 : v.cipherSuites.any (· = 255) = false := by
+      cases hs : v.cipherSuites.any (· = 255) with
+      | false => rfl
+      | true => rw [hscsv hs] at c8; cases c8
+    obtain ⟨⟩ := v
+    simp_all [chBase]
+
 -- what re-marshalling does to the ignored header ----------------------------------------------------------
 
 /-- an accepted ServerKeyExchange re-marshalled: the same bytes behind a header that `marshal` computes -/
@@ -2335,5 +2916,50 @@ example : unmarshalCertificateStatus [22, 0, 0, 6, 1, 0, 0, 2, 5, 6, 7] = none :
 example : unmarshalCertificateStatus [22, 0, 0, 6, 2, 0, 0, 2, 5, 6, 7] = some ⟨2, []⟩ := by decide
 example : unmarshalNextProto [67, 0, 0, 5, 2, 104, 50, 1, 0] = some ⟨[104, 50]⟩ := by decide
 example : unmarshalNextProto [67, 0, 0, 5, 2, 104, 50, 1] = none := by decide
+
+-- the hello messages: non-vacuity -------------------------------------------------------------------------
+
+def sampleServerHello : ServerHelloMsg :=
+  { vers := 0x0303, random := List.replicate 32 7, sessionId := [1, 2], cipherSuite := 0xc02f, compressionMethod := 0,
+    nextProtoNeg := true, nextProtos := [[104, 50], [120]], ocspStapling := true, scts := [[9, 9], [8]],
+    ticketSupported := true, secureRenegotiation := [5, 6], secureRenegotiationSupported := true,
+    alpnProtocol := [104, 50] }
+
+set_option maxRecDepth 20000 in
+example : unmarshalServerHello (marshalServerHello sampleServerHello) = some sampleServerHello := by decide
+set_option maxRecDepth 20000 in
+example : WFServerHello sampleServerHello := by unfold WFServerHello; decide
+set_option maxRecDepth 20000 in
+example : (marshalServerHello sampleServerHello).length = 92 := by decide
+-- a second NPN extension appends, a second SCT extension replaces, an unknown extension is skipped
+set_option maxRecDepth 20000 in
+example : (unmarshalServerHello ([2, 0, 0, 0, 3, 3] ++ List.replicate 32 7 ++ [0, 0, 47, 0, 0, 36,
+    0x33, 0x74, 0, 2, 1, 97, 0x33, 0x74, 0, 2, 1, 98, 0, 18, 0, 5, 0, 3, 0, 1, 9, 0, 18, 0, 5, 0, 3, 0, 1, 8,
+    0xab, 0xcd, 0, 2, 1, 2])).map (fun m => (m.nextProtos, m.scts)) = some ([[97], [98]], [[8]]) := by decide
+-- one byte missing at the end; one stray byte inside the extension block
+set_option maxRecDepth 20000 in
+example : unmarshalServerHello ((marshalServerHello sampleServerHello).dropLast) = none := by decide
+set_option maxRecDepth 20000 in
+example : unmarshalServerHello (marshalServerHello sampleServerHello ++ [0]) = none := by decide
+
+def sampleClientHello : ClientHelloMsg :=
+  { vers := 0x0101, random := List.replicate 32 3, sessionId := [], cipherSuites := [0xe013, 0x00ff],
+    compressionMethods := [0], nextProtoNeg := true, serverName := [97, 46, 98], ocspStapling := true, scts := true,
+    supportedCurves := [23], supportedPoints := [0], ticketSupported := true, sessionTicket := [1, 2, 3],
+    supportedSignatureAlgorithms := [0x0403], secureRenegotiation := [], secureRenegotiationSupported := true,
+    alpnProtocols := [[104, 50], [120]] }
+
+set_option maxRecDepth 20000 in
+example : unmarshalClientHello (marshalClientHello sampleClientHello) = some sampleClientHello := by decide
+set_option maxRecDepth 20000 in
+example : WFClientHello sampleClientHello := by unfold WFClientHello; decide
+-- the signalling suite 0x00ff alone sets the renegotiation flag: this value does not survive the round trip
+set_option maxRecDepth 20000 in
+example : (unmarshalClientHello (marshalClientHello { sampleClientHello with secureRenegotiationSupported := false })).map
+    (fun m => m.secureRenegotiationSupported) = some true := by decide
+set_option maxRecDepth 20000 in
+example : unmarshalClientHello ((marshalClientHello sampleClientHello).dropLast) = none := by decide
+set_option maxRecDepth 20000 in
+example : unmarshalClientHello (marshalClientHello sampleClientHello ++ [0]) = none := by decide
 
 end Props.C15Codec
